@@ -710,7 +710,17 @@ class PureScheduler:                                    # pylint: disable=r0902
             # wait for the forever tasks for a clean exit
             # don't bother to set a timeout, as this is expected
             # to be immediate since all tasks are canceled
-            await asyncio.wait(pending)
+            # if we get cancelled ourselves in the meanwhile (nested
+            # scheduler), keep on waiting so that no task outlives us
+            cancelled = None
+            while True:
+                try:
+                    await asyncio.wait(pending)
+                    break
+                except asyncio.CancelledError as exc:
+                    cancelled = exc
+            if cancelled is not None:
+                raise cancelled
 
     async def _tidy_tasks_exception(self, tasks):
         """
@@ -881,7 +891,12 @@ class PureScheduler:                                    # pylint: disable=r0902
         await self._feedback(None, "scheduler is shutting down...")
 
         # the done part is of no use here
-        _, pending = await asyncio.wait(tasks, timeout=timeout)
+        try:
+            _, pending = await asyncio.wait(tasks, timeout=timeout)
+        except asyncio.CancelledError:
+            # pass the cancellation on to the co_shutdown() methods
+            await self._tidy_tasks([t for t in tasks if not t.done()])
+            raise
         # everything went fine
         # NOTE however: here we say that sub-schedulers that expired in timeout
         # should not impact the overall result; this is an arguable choice
